@@ -432,6 +432,10 @@ class Inliner:
             if not isinstance(st, (ast.Expr, ast.Assign, ast.AugAssign, ast.AnnAssign, ast.Return)):
                 out.append(st)
                 continue
+            low = self.lower_listcomp(st, cls, selfname, local_fns) if depth < MAX_DEPTH else None
+            if low is not None:
+                out += self.process_block(low, cls, selfname, local_fns, caller_fn, depth + 1)
+                continue
             done = False
             for call, cond in self.calls_in(st):
                 r = self.resolve(call, cls, selfname, local_fns)
@@ -500,6 +504,53 @@ class Inliner:
             if not done:
                 out.append(st)
         return out
+
+    def lower_listcomp(self, st, cls, selfname, local_fns):
+        """N18  v = [helper(x) for x in xs]   ->   v = [] ; for x' in xs: v.append(helper(x'))
+        only when the element calls a statement-like helper (guards, raises), which can then be inlined in the loop body"""
+        if not (isinstance(st, ast.Assign) and len(st.targets) == 1 and isinstance(st.targets[0], ast.Name) and isinstance(st.value, ast.ListComp)):
+            return None
+        comp = st.value
+        if len(comp.generators) != 1 or comp.generators[0].is_async:
+            return None
+        gen = comp.generators[0]
+        v = st.targets[0].id
+        if any(isinstance(x, ast.Name) and x.id == v for x in ast.walk(comp)):
+            return None
+        wanted = False
+        for call, cond in self.calls_in(ast.Expr(value=comp.elt)):
+            if cond:
+                continue
+            r = self.resolve(call, cls, selfname, local_fns)
+            if r is None:
+                continue
+            fn = r[0]
+            body0 = [b for b in fn.body if not (isinstance(b, ast.Expr) and isinstance(b.value, ast.Constant))]
+            if as_expression(body0) is None and self.bind(fn, r[1], call, r[2]) is not None:
+                wanted = True
+        if not wanted:
+            return None
+        self.counter += 1
+        tag = f"_i{self.counter}_"
+        rename = {x.id: tag + x.id for x in ast.walk(gen.target) if isinstance(x, ast.Name)}
+        sub = _Subst({}, rename)
+        target = sub.visit(copy.deepcopy(gen.target))
+        elt = sub.visit(copy.deepcopy(comp.elt))
+        ifs = [sub.visit(copy.deepcopy(c)) for c in gen.ifs]
+        app = ast.Expr(value=ast.Call(func=ast.Attribute(value=ast.Name(id=v, ctx=ast.Load()), attr="append", ctx=ast.Load()), args=[elt], keywords=[]))
+        body = [app]
+        if ifs:
+            test = ifs[0] if len(ifs) == 1 else ast.BoolOp(op=ast.And(), values=ifs)
+            body = [ast.If(test=test, body=[app], orelse=[])]
+        init = ast.Assign(targets=[ast.Name(id=v, ctx=ast.Store())], value=ast.List(elts=[], ctx=ast.Load()))
+        loop = ast.For(target=target, iter=gen.iter, body=body, orelse=[])
+        for x in (init, loop):
+            for y in ast.walk(x):
+                if isinstance(y, (ast.stmt, ast.expr)):
+                    y.lineno, y.col_offset = st.lineno, st.col_offset
+                    y.end_lineno, y.end_col_offset = getattr(st, "end_lineno", st.lineno), getattr(st, "end_col_offset", st.col_offset)
+            ast.fix_missing_locations(x)
+        return [init, loop]
 
     def substitute_expressions(self, e, cls, selfname, local_fns):
         """replace calls of expression-like helpers inside an expression"""
@@ -1077,6 +1128,23 @@ def boolify_tests(tree):
     ast.fix_missing_locations(tree)
 
 
+def flatten_boolops(tree):
+    """`a and (b and c)` -> `a and b and c` (same value, same evaluation order, same short circuit)"""
+    changed = True
+    while changed:
+        changed = False
+        for n in ast.walk(tree):
+            if isinstance(n, ast.BoolOp) and any(isinstance(v, ast.BoolOp) and type(v.op) is type(n.op) for v in n.values):
+                vals = []
+                for v in n.values:
+                    if isinstance(v, ast.BoolOp) and type(v.op) is type(n.op):
+                        vals += v.values
+                    else:
+                        vals.append(v)
+                n.values = vals
+                changed = True
+
+
 def apply(tree, helpers=True):
     split_parallel_assignments(tree)
     unroll_constant_loops(tree)
@@ -1087,11 +1155,14 @@ def apply(tree, helpers=True):
         except RecursionError:
             pass
         boolify_tests(tree)
+    from .forward import forward_param_reads
+    forward_param_reads(tree)
     for fn in ast.walk(tree):
         if isinstance(fn, (ast.FunctionDef, ast.AsyncFunctionDef)):
             unfold_return_guards(fn)
     eliminate_attribute_aliases(tree)
     forward_pure_flags(tree)
     sink_alias_selection(tree)
+    flatten_boolops(tree)
     ast.fix_missing_locations(tree)
     return tree
